@@ -520,6 +520,31 @@ def ibm_to_float(raw):
     return sign * mant * np.power(16.0, expo)
 
 
+def negative_inline_cases(k0):
+    """irregular sources whose INLINE numbers are negative (all of them, or changing sign without ever being 0: a trace with
+    inline number 0 cannot be told from a hole, by design of the format), crossline numbers of either sign: a live grid
+    position is one whose stored inline number is non-zero, whatever its sign.  Both formats, API and CLI."""
+    out = []
+    r = random.Random(a.seed * 131 + 66)
+    for j in range(4):
+        c = gen_case(4000 + j, True)
+        n_il, n_xl = r.choice([3, 4, 5, 7, 9]), r.choice([3, 4, 5, 6, 9])
+        il_step, xl_step = r.choice([1, 2, 3, 5]), r.choice([1, 2, 4])
+        if j % 2 == 0 or il_step == 1:
+            il0 = -(n_il - 1) * il_step - r.randrange(1, 40)                      # every inline number negative
+        else:
+            il0 = -il_step * r.randrange(1, n_il) + r.randrange(1, il_step)       # changes sign, never 0
+        xl0 = r.choice([1, 20, -3 * n_xl * xl_step - 1, -xl_step * (n_xl // 2)])
+        assert all(il0 + i * il_step != 0 for i in range(n_il))
+        c.update(kind='irregular', via='cli' if j == 3 else 'api', k=k0 + j, fmt=[5, 1][j % 2], ext=0, vary_delay=False, scalar=0,
+                 n_il=n_il, n_xl=n_xl, il0=il0, xl0=xl0, il_step=il_step, xl_step=xl_step, mseed=r.randrange(2 ** 31),
+                 hv=['default', 'random', 'duplicate', 'default'][j], bin='plain')
+        c.pop('nt', None)
+        c['bpv'], c['bs'] = [(4, None), (8, (4, 8, -1)), (4, (8, 8, -1)), (8, None)][j]
+        out.append(c)
+    return out
+
+
 def main():
     quick = (a.tier == 'quick') and not a.search
     d = scratch_dir()
@@ -569,6 +594,8 @@ def main():
                      vary_delay=False, dt_us=2000, t0=0)
             c.pop('scalar', None)
             cases.append(c)
+        if not a.replay:
+            cases += negative_inline_cases(len(cases))
         if not a.replay:
             k0 = len(cases)
             for j, (kind, scalar, t0) in enumerate([('regular', -100, -200), ('regular', -100, 0), ('2d', 1, 100), ('irregular', -1, -8),
